@@ -51,7 +51,9 @@ for c in [
     mkcfg("small-nosse-strict", sse2=0, san=STRICT),
     mkcfg("small-ts-strict", mmc=0, mzdcache=0, san=STRICT),
     mkcfg("small-wrap", wrap=True),
+    mkcfg("small-nosse-wrap", wrap=True, sse2=0),
     mkcfg("small-wrap-strict", wrap=True, san=STRICT),
+    mkcfg("small-nosse-wrap-strict", wrap=True, sse2=0, san=STRICT),
     mkcfg("small-ts-wrap-strict", wrap=True, mmc=0, mzdcache=0, san=STRICT),
     mkcfg("small-omp", openmp=1, mzdcache=0),
     mkcfg("mid-omp", caches=MID, openmp=1, mzdcache=0),
